@@ -331,8 +331,15 @@ WRITERS = {
     "clematis.engine.snapshot:_write_lines": "header+payload snapshot",
     "clematis.engine.snapshot:_write_sidecar_meta": "sidecar",
     "clematis.io.log:rewrite_jsonl": "compacted log",
+    "clematis.scripts.export_logs_for_frontend:main": "JSON export bundle (--out)",
+    "clematis.scripts.console:write_json": "JSON export of the console (--out)",
 }
 USE_MODULES = {"clematis.engine.snapshot": set(), "clematis.io.log": {"_append_jsonl_unbuffered"}}
+# the JSON exports the statement names are written by these two scripts: nothing in them writes a file's content directly
+# (temp-directory housekeeping is not a write of an artefact)
+EXPORT_MODULES = ("clematis.scripts.export_logs_for_frontend", "clematis.scripts.console")
+# stand-alone scripts outside the package that write snapshot artefacts (parsed ad hoc: they are not part of the program model)
+EXTRA_SCRIPTS = {"scripts/mem_compact.py": "compacted snapshots (snapshot-<etag>.full.json[.zst])"}
 
 
 def rule_use(ctx) -> None:
@@ -344,7 +351,7 @@ def rule_use(ctx) -> None:
         ctx.check(bool(sites), "C08.USE", f"{q}/atomic-writer", fn.loc(),
                   f"{what} reaches disk through {sorted({ctx.prog.callee_name(fn, c).split(':')[1] for _, c in sites})}",
                   f"{what}: writer no longer calls atomic_write_* (not written through the atomic path)")
-    ctx.floor("C08.USE", "atomic_write_* call sites in the writers", n_sites, 5)
+    ctx.floor("C08.USE", "atomic_write_* call sites in the writers", n_sites, 7)
     for modname, exempt in USE_MODULES.items():
         m = ctx.prog.module(modname)
         ctx.analysed_modules.add(modname)
@@ -358,6 +365,26 @@ def rule_use(ctx) -> None:
                               f"durable-artefact module writes the file system directly, bypassing the atomic path: {src(op.call)[:90]}")
     ctx.holds("C08.USE", "anchored-modules/no-raw-writes", "clematis/engine/snapshot.py, clematis/io/log.py",
               "no raw open-for-write / write_text / rename / unlink in the durable-artefact modules (append path exempt: C16)")
+    for modname in EXPORT_MODULES:
+        ctx.analysed_modules.add(modname)
+        for fn in ctx.prog.module(modname).funcs.values():
+            for op in file_ops(ctx, fn):
+                if op.kind in ("open-w", "write_text", "write_bytes"):
+                    ctx.violation("C08.USE", f"{fn.qual}/{op.kind}", fn.loc(op.call),
+                                  f"a JSON export is written straight onto its final name: {src(op.call)[:80]} - a write that fails half-way leaves a truncated, non-JSON file in place of the previous "
+                                  "export, and a concurrent reader sees an empty or partial file")
+    import os
+    for rel, what in EXTRA_SCRIPTS.items():
+        path = os.path.join(ctx.prog.repo, rel)
+        try:
+            tree = ast.parse(open(path, encoding="utf-8").read())
+        except OSError:
+            raise AnalysisError(f"anchor-vanished: {rel}")
+        raw = [x for x in ast.walk(tree) if isinstance(x, ast.Call) and ((isinstance(x.func, ast.Attribute) and x.func.attr in ("write_text", "write_bytes"))
+                                                                        or (dotted(x.func) in ("open", "io.open") and len(x.args) > 1 and any(ch in (const_str(x.args[1]) or "") for ch in "wax")))]
+        uses = [x for x in ast.walk(tree) if isinstance(x, ast.Call) and call_tail(x).startswith("atomic_write_")]
+        ctx.check(not raw and bool(uses), "C08.USE", f"{rel}/atomic-writer", f"{rel}:{raw[0].lineno}" if raw else rel, f"{what} reach disk through atomic_write_* ({len(uses)} call site(s)), no raw write",
+                  f"{what}: `{src(raw[0])[:60] if raw else ''}` writes the final name directly - a write that fails half-way leaves a truncated file that snapshot discovery returns and the reader raises on")
     if ctx.tier == "thorough":
         for fn in ctx.prog.all_funcs("clematis."):
             if fn.module.name in USE_MODULES or fn.module.name == ATOMIC:
